@@ -9,15 +9,22 @@
  *   iter in|pre|post|list [K]    iterate (to completion, or K ≥ 1 calls)    → seq …   (post: node/parent)
  *   resume                       finish an iteration cut short by K         → seq …
  *   trav in|pre|post|list        the recursive traversal                    → seq …
- *   free | freel i | freer i     bintree_free(root) / _left(i) / _right(i)  → freed …
+ *   owns i j [i j …]             node i owns the separate tree rooted at node j (a root of the forest the
+ *                                `tree` line describes): the deallocator, handed node i, first frees that tree
+ *                                with a nested bintree_free (same deallocator: nesting goes on), then node i → ok
+ *   free | freel i | freer i     bintree_free(root) / _left(i) / _right(i)  → freed …  (ids in the order the
+ *                                deallocator is entered)
  *   image                        all links: `left,tag,right` per node, `x` for a deallocated node
  *   reset, "--" (echoed)
- * The harness compares nothing itself.
+ * `h_bintree --stack K` runs the whole command loop in a thread with a K KiB stack: code whose stack use grows
+ * with the depth of the tree overflows it on a deep chain (SIGSEGV on the guard page), constant-space code
+ * does not.  The harness compares nothing itself.
  */
 #include <stdio.h>
 #include <stdlib.h>
 #include <string.h>
 #include <stdint.h>
+#include <pthread.h>
 #include "bintree.c"
 
 /* packed + aligned(2): the harness's own accesses must not assume more than the 2-byte alignment the property grants */
@@ -29,6 +36,8 @@ struct hnode {
 
 static struct hnode **nodes; /* id -> node (stale after free: only compared, never dereferenced) */
 static unsigned char *offs;  /* id -> offset of the node inside its malloc block */
+static int *owned;           /* id -> root id of the tree this node owns, or -1 */
+static struct addr { uintptr_t a; int id; } *byaddr; /* the node addresses, sorted: pointer -> id without dereferencing */
 static char *live;
 static int nnodes;
 static bintree_node_t *root;
@@ -42,9 +51,13 @@ static void wipe(void)
 			free((char *)nodes[i] - offs[i]);
 	free(nodes);
 	free(offs);
+	free(owned);
+	free(byaddr);
 	free(live);
 	nodes = NULL;
 	offs = NULL;
+	owned = NULL;
+	byaddr = NULL;
 	live = NULL;
 	nnodes = 0;
 	root = NULL;
@@ -52,12 +65,25 @@ static void wipe(void)
 	memset(&it, 0xa5, sizeof it); /* bintree_iterator_t on the stack is uninitialised in real callers */
 }
 
-/* id of a pointer value (tag bit already removed): linear search, never dereferences */
+static int cmp_addr(const void *x, const void *y)
+{
+	uintptr_t a = ((const struct addr *)x)->a, b = ((const struct addr *)y)->a;
+	return a < b ? -1 : a > b;
+}
+
+/* id of a pointer value (tag bit already removed): binary search in the address table, never dereferences */
 static int id_of(const void *p)
 {
-	for (int i = 0; i < nnodes; i++)
-		if ((const void *)nodes[i] == p)
-			return i;
+	int lo = 0, hi = nnodes - 1;
+	while (lo <= hi) {
+		int mid = lo + (hi - lo) / 2;
+		if (byaddr[mid].a == (uintptr_t)p)
+			return byaddr[mid].id;
+		if (byaddr[mid].a < (uintptr_t)p)
+			lo = mid + 1;
+		else
+			hi = mid - 1;
+	}
 	return -1;
 }
 
@@ -85,6 +111,12 @@ static void dealloc(bintree_node_t *n)
 	printf(" ");
 	put_ptr(n);
 	fflush(stdout);
+	if (id >= 0 && owned[id] >= 0 && live[owned[id]]) {
+		/* the node owns another tree: free that first, re-entering bintree_free from inside the deallocator */
+		int j = owned[id];
+		owned[id] = -1;
+		bintree_free((bintree_node_t *)nodes[j], dealloc);
+	}
 	if (id >= 0)
 		live[id] = 0;
 	free((char *)n - (id >= 0 ? offs[id] : 0)); /* really free the block the node lives in */
@@ -125,11 +157,11 @@ static bintree_node_t *parse_ptr(const char *w)
 	return (i >= 0 && i < nnodes) ? (bintree_node_t *)nodes[i] : NULL;
 }
 
-int main(void)
+static void *run(void *arg)
 {
 	char *line = NULL;
 	size_t cap = 0;
-	setvbuf(stdout, NULL, _IOLBF, 0); /* keep output up to a crash */
+	(void)arg;
 	wipe();
 	while (getline(&line, &cap, stdin) > 0) {
 		char *save = NULL;
@@ -144,11 +176,14 @@ int main(void)
 		} else if (!strcmp(op, "tree")) {
 			char *w = strtok_r(NULL, " \t\r\n", &save);
 			char **tok = NULL;
-			int ntok = 0, nalign = 0, at = -1;
+			int ntok = 0, captok = 0, nalign = 0, at = -1;
 			wipe();
 			nnodes = w ? atoi(w) : 0;
 			while ((w = strtok_r(NULL, " \t\r\n", &save))) {
-				tok = realloc(tok, (ntok + 1) * sizeof *tok);
+				if (ntok == captok) {
+					captok = captok ? 2 * captok : 64;
+					tok = realloc(tok, captok * sizeof *tok);
+				}
 				tok[ntok++] = w;
 			}
 			for (int i = 0; i < ntok; i++)
@@ -162,6 +197,8 @@ int main(void)
 			nodes = calloc(nnodes ? nnodes : 1, sizeof *nodes);
 			offs = calloc(nnodes ? nnodes : 1, 1);
 			live = calloc(nnodes ? nnodes : 1, 1);
+			owned = calloc(nnodes ? nnodes : 1, sizeof *owned);
+			byaddr = calloc(nnodes ? nnodes : 1, sizeof *byaddr);
 			for (int i = 0; i < nnodes; i++) {
 				int o = nalign ? atoi(tok[at + 1 + i % nalign]) : 0;
 				o = (o < 0 || o > 14) ? 0 : (o & ~1);
@@ -170,7 +207,11 @@ int main(void)
 				nodes[i]->id = i;
 				nodes[i]->is_list = 0;
 				live[i] = 1;
+				owned[i] = -1;
+				byaddr[i].a = (uintptr_t)nodes[i];
+				byaddr[i].id = i;
 			}
+			qsort(byaddr, nnodes, sizeof *byaddr, cmp_addr);
 			root = at > 0 ? parse_ptr(tok[0]) : NULL;
 			for (int i = 0; i < nnodes; i++) {
 				char *l = 1 + 2 * i < at ? tok[1 + 2 * i] : NULL;
@@ -179,6 +220,14 @@ int main(void)
 				nodes[i]->n.right = r ? parse_ptr(r) : NULL;
 			}
 			free(tok);
+			puts("ok");
+		} else if (!strcmp(op, "owns")) {
+			char *a, *b;
+			while ((a = strtok_r(NULL, " \t\r\n", &save)) && (b = strtok_r(NULL, " \t\r\n", &save))) {
+				int i = atoi(a), j = atoi(b);
+				if (i >= 0 && i < nnodes && j >= 0 && j < nnodes)
+					owned[i] = j;
+			}
 			puts("ok");
 		} else if (!strcmp(op, "lists")) {
 			char *w;
@@ -294,5 +343,23 @@ int main(void)
 	}
 	wipe();
 	free(line);
+	return NULL;
+}
+
+int main(int argc, char **argv)
+{
+	setvbuf(stdout, NULL, _IOLBF, 0); /* keep output up to a crash */
+	if (argc == 3 && !strcmp(argv[1], "--stack")) {
+		pthread_attr_t at;
+		pthread_t th;
+		pthread_attr_init(&at);
+		if (pthread_attr_setstacksize(&at, (size_t)atol(argv[2]) * 1024) || pthread_create(&th, &at, run, NULL)) {
+			fprintf(stderr, "cannot create the small-stack thread\n");
+			return 3;
+		}
+		pthread_join(th, NULL);
+	} else {
+		run(NULL);
+	}
 	return 0;
 }
